@@ -351,7 +351,20 @@ func TestCacheConcurrent(t *testing.T) {
 					log(Ev{"e": "end", "g": g, "k": "n1", "kind": "ok", "gen": genOf(rr, z.typ)})
 				}(g)
 			}
-			wg.Wait()
+			// lookups that never come back (a deadlock on the entry's lock does not care about the context) end the run
+			allDone := make(chan struct{})
+			go func() { wg.Wait(); close(allDone) }()
+			select {
+			case <-allDone:
+			case <-time.After(2 * watchdogLimit()):
+				for _, e := range evs {
+					w.Write(e)
+				}
+				w.Write(Ev{"e": "crash", "msg": "concurrent lookups of one name did not return (deadlock): every lookup is bounded by its context and by the upstream answer"})
+				w.Write(Ev{"e": "fin"})
+				w.Close()
+				os.Exit(0)
+			}
 			close(stopClock)
 		}
 		srv.Close()
@@ -405,7 +418,8 @@ func TestCacheParked(t *testing.T) {
 						res, _ := ech.NewResolver(srv.url())
 						w.Write(Ev{"e": "reset", "scen": Ev{"ttls": tts, "G": 2, "typ": z.typ}, "round": round})
 						round++
-						lookup := func(g int) {
+						var lookup func(g int)
+						lookup = func(g int) {
 							log(Ev{"e": "start", "g": g, "k": "n1"})
 							ctx, cancel := context.WithTimeout(context.Background(), 10*time.Second)
 							rr, err := res.Resolve(ctx, "n1.example")
@@ -415,6 +429,25 @@ func TestCacheParked(t *testing.T) {
 								return
 							}
 							log(Ev{"e": "end", "g": g, "k": "n1", "kind": "ok", "gen": genOf(rr, z.typ)})
+						}
+						bail := func(msg string) {
+							for _, e := range evs {
+								w.Write(e)
+							}
+							w.Write(Ev{"e": "crash", "msg": msg})
+							w.Write(Ev{"e": "fin"})
+							w.Close()
+							os.Exit(0)
+						}
+						plain := lookup
+						lookup = func(g int) { // guarded: a lookup that never returns ends the run
+							fin := make(chan struct{})
+							go func() { defer close(fin); plain(g) }()
+							select {
+							case <-fin:
+							case <-time.After(2 * watchdogLimit()):
+								bail("a lookup did not return while another one was parked before its decision (deadlock)")
+							}
 						}
 						lookup(1) // fills the cache
 						steps := ttl - 1
@@ -427,7 +460,7 @@ func TestCacheParked(t *testing.T) {
 						}
 						parkNext.Store(true)
 						done := make(chan struct{})
-						go func() { defer close(done); lookup(2) }()
+						go func() { defer close(done); plain(2) }()
 						select {
 						case <-parked:
 						case <-time.After(watchdogLimit()):
@@ -451,7 +484,17 @@ func TestCacheParked(t *testing.T) {
 							log(Ev{"e": "advance"})
 						}
 						release <- struct{}{}
-						<-done
+						select {
+						case <-done:
+						case <-time.After(2 * watchdogLimit()):
+							for _, e := range evs {
+								w.Write(e)
+							}
+							w.Write(Ev{"e": "crash", "msg": "a lookup released after another one refreshed the entry never returned (deadlock)"})
+							w.Write(Ev{"e": "fin"})
+							w.Close()
+							os.Exit(0)
+						}
 						srv.Close()
 						for _, e := range evs {
 							w.Write(e)
